@@ -6,7 +6,10 @@
 //!   scale.reject <kind> ...                      out-of-range coordinates / indices are rejected without a panic
 //!     kind `drawsub <bits> <order> <via> x y w h`: a DIRECT `ImageDrawable::draw_sub_image(&image, &mut target, &area)`
 //!     on a 5 x 3 `ImageRaw` (via 0) or on its sub-image (1, 1) 3 x 2 (via 1) — `sub_image()` crops its area, a direct call
-//!     does not: nothing may be drawn unless the area lies completely inside the image, then exactly the area's pixels
+//!     does not. Oracle: no panic; nothing is written outside the target area `(0,0) + area.size`; an area not inside the
+//!     PARENT image draws nothing; an area inside the addressed image itself draws exactly its pixels; for an area outside
+//!     the sub-image but inside its parent (via 1) the text demands nothing beyond "no panic": what happens is recorded in
+//!     the counters `obs:drawsub-outside-sub-image-inside-parent-draws-{parent-pixels,nothing}`
 //!   scale.adapter <root box> <stack> <job>       shapes / images / text / target calls drawn through clipped, cropped,
 //!                                                translated, colour-converted targets and stacks of them (m_scale_adapter.rs)
 //!
@@ -644,17 +647,35 @@ impl Module for M {
                                     sub.draw_sub_image(&mut rec, &area).unwrap();
                                 }
                                 let (x, y, w, h) = (area.top_left.x as i64, area.top_left.y as i64, area.size.width as i64, area.size.height as i64);
-                                // a sub-image hands the area on to its parent: "inside" refers to the parent for via 1
-                                // (the sub-image's own box does not clip a direct call), so both readings are reported
+                                // Two readings of "inside" for via 1 (the area is given in the SUB-image's coordinates): inside the
+                                // sub-image itself (`own`), or inside the parent image the sub-image hands the area on to. C08's
+                                // text only says that out-of-range areas "are rejected without a panic", and the documentation of
+                                // `ImageDrawable::draw_sub_image` only that no drawing operation outside the given area may occur
+                                // (every implementation draws the area at the target's origin). So the oracle states:
+                                //   * no panic (main.rs), and NOTHING is written outside the target area `(0,0) + area.size`;
+                                //   * an area that is not inside the parent image (out of range under either reading) draws nothing;
+                                //   * an area inside the addressed image itself draws exactly that image's pixels;
+                                //   * an area outside the sub-image but inside its parent (via 1 only): no claim about what is
+                                //     drawn - the behaviour is RECORDED as an observation counter.
                                 let inside_parent = w > 0 && h > 0 && x + ox >= 0 && y + oy >= 0 && x + ox + w <= 5 && y + oy + h <= 3;
                                 let inside_own = w > 0 && h > 0 && x >= 0 && y >= 0 && x + w <= iw && y + h <= ih;
                                 ctx.count(if inside_parent { "reject:drawsub-inside" } else { "reject:drawsub-outside" });
+                                let in_target_area = rec.rec.outside == 0 && rec.rec.map.keys().all(|(py, px)| 0 <= *px as i64 && (*px as i64) < w && 0 <= *py as i64 && (*py as i64) < h);
+                                ctx.expect(in_target_area, "C08:drawsub-writes-outside-the-target-area", || {
+                                    format!("area size {}x{}: {}", w, h, rec.rec.log.iter().map(|c| c.fmt()).collect::<Vec<_>>().join("|"))
+                                });
                                 if !inside_parent {
                                     ctx.expect(rec.rec.log.is_empty(), "C08:drawsub-outside-area-drawn", || format!("{} calls", rec.rec.log.len()));
-                                } else {
+                                } else if inside_own {
                                     let want: Vec<u32> = (0..h).flat_map(|r| (0..w).map(move |c| (c, r))).map(|(c, r)| raw.pixel(Point::new((x + ox + c) as i32, (y + oy + r) as i32)).unwrap().num()).collect();
                                     let ok = rec.rec.log.len() == 1 && rec.rec.log[0] == Call::FillContiguous(Rectangle::new(Point::zero(), area.size), want.clone());
                                     ctx.expect(ok, "C08:drawsub-inside-area-wrong-pixels", || rec.rec.log.iter().map(|c| c.fmt()).collect::<Vec<_>>().join("|"));
+                                } else {
+                                    ctx.count(if rec.rec.log.is_empty() {
+                                        "obs:drawsub-outside-sub-image-inside-parent-draws-nothing"
+                                    } else {
+                                        "obs:drawsub-outside-sub-image-inside-parent-draws-parent-pixels"
+                                    });
                                 }
                                 format!("ok inside={} own={} calls={}", inside_parent as u8, inside_own as u8, rec.rec.log.len())
                             }};
